@@ -161,10 +161,15 @@ CLAIMED["C01"] = dict(
          "per-column). (2) The matrices vnacal_apply hands to the linear solver for T8, TE10 and T16 calibrations "
          "are proved cell by cell to be A = Ts - M'Tx, B = M'Tm - Ti with the leakage term of exactly that cell "
          "subtracted, on the function text extracted from vnacal_apply.c each run and compiled over the ring Z/256. "
-         "With the assumed kernel contract (solve returns the solution) this gives S = (Ts - M Tx)^-1 (M Tm - Ti) "
-         "in exact arithmetic for those types.",
+         "The same for the U forms (fill_u8 for U8/UE10, fill_ue14; fill_u16 in thorough): A = Ux M + Us, B = Um M + Ui.  "
+         "(3) The frame of vnacal_apply_m around recording contracts of _vnacal_rfi and the linear kernels: terms "
+         "interpolated once per requested frequency, the documented system of THAT frequency handed to the documented "
+         "kernel (T: mldivide, U/E12: mrdivide), the solution stored at the same frequency and cell, singular systems "
+         "reported, empty requests read nothing.  "
+         "With the assumed kernel contract (solve returns the solution) this gives S = (Ts - M Tx)^-1 (M Tm - Ti) resp. "
+         "S = (Um M + Ui)(Ux M + Us)^-1 in exact arithmetic for those types.",
     note="NOT covered: equation term generation, solve, "
-         "fill_u8/u16/ue14/e12, rfi values between knots, accuracy.  The end-to-end numerical statement of C01 is "
+         "fill_e12 (divisions), rfi values between knots, accuracy.  The end-to-end numerical statement of C01 is "
          "out of reach of contract verification with CBMC; a numerical defect that keeps indices intact is invisible",
     design="DESIGN.md 3 C01, 8.9",
     technique="DFCC function contract (_vnacal_layout) + ring-substituted cell-wise contracts on extracted fill_t8/fill_t16 + CBMC contract harnesses (cell map, parameter hash)",
